@@ -232,7 +232,7 @@ def C14(rep):
     rep.extra["enumerated_sequences"] = st["sequences"]
     drive(rep, ["--mode", "enum", "--seqs", seqs], "policy-enum")
     # (TLC explains ~2-5 k records/s per worker, so the 10^4 [10^6] random sequences of the plan are 10^3 [10^4] here)
-    drive(rep, ["--mode", "rand", "--programs", 1000 if quick else 10000, "--ops", 40 if quick else 60,
+    drive(rep, ["--mode", "rand", "--programs", 1000 if quick else 5000, "--ops", 40 if quick else 60,
                 "--seed", rep.seed], "policy-rand")
     rep.assumptions += ASSUME
 
